@@ -469,10 +469,18 @@ impl FileMetaStore {
         value: &[u8],
     ) -> Result<(), Error> {
         if key == HARD_STATE_KEY {
+            // Write the new value to a temporary file, sync it, then rename it over the old
+            // one: a crash at any point leaves either the previous or the new hard state, never
+            // a truncated file (which would load as "no hard state" and lose term and vote).
             let hard_state_path = self.data_dir.join(HARD_STATE_FILE_NAME);
-            let mut file = File::create(hard_state_path)?;
-            file.write_all(value)?;
-            file.flush()?;
+            let tmp_path = self.data_dir.join(format!("{HARD_STATE_FILE_NAME}.tmp"));
+            {
+                let mut file = File::create(&tmp_path)?;
+                file.write_all(value)?;
+                file.flush()?;
+                file.sync_all()?;
+            }
+            std::fs::rename(&tmp_path, &hard_state_path)?;
         }
 
         Ok(())
